@@ -746,12 +746,6 @@ pub fn mon_c05(log: &[Rec], f: &Flow, setup: &Setup, m: &mut Mon) {
             _ => {}
         }
     }
-    // reboot_needed is only asked after an install in which no app failed
-    for c in &f.checks {
-        if let (Some((_, _)), Some((_, res))) = (c.reboot_needed, &c.install_done) {
-            m.judge("c05-reboot-needed-only-after-clean-install", !res.iter().any(|x| *x == InstRes::Failed), "", || format!("check #{}: reboot_needed asked although an app failed", c.idx));
-        }
-    }
 }
 
 /// Invalid app set: the machine never starts — no policy / HTTP / timer / installer call at all.
